@@ -16,23 +16,28 @@ class Unknown(Exception):
     pass
 
 
-def eval_expr(e, env):
-    """evaluate integer expression e; env maps id(node)->value for atoms.
+def eval_expr(e, env, hook=None):
+    """evaluate integer expression e; env maps id(node)->value for atoms; hook(node, recurse)
+    may return a value for nodes it understands (e.g. table lookups).
     raises Unknown for anything not computable."""
     if id(e) in env:
         return env[id(e)]
+    if hook is not None:
+        hv = hook(e, lambda x: eval_expr(x, env, hook))
+        if hv is not None:
+            return hv
     k = e.get("k")
     if k == "int":
         return int(e["v"])
     if "cv" in e:
         return int(e["cv"])
     if k == "cast":
-        v = eval_expr(e["e"], env)
+        v = eval_expr(e["e"], env, hook)
         if e.get("ck") in ("IntegralToBoolean", "PointerToBoolean"):
             return 1 if v else 0
         return v
     if k == "un":
-        v = eval_expr(e["e"], env)
+        v = eval_expr(e["e"], env, hook)
         op = e["op"]
         if op == "!":
             return 0 if v else 1
@@ -45,8 +50,8 @@ def eval_expr(e, env):
         raise Unknown()
     if k == "bin":
         op = e["op"]
-        a = eval_expr(e["x"], env)
-        b = eval_expr(e["y"], env)
+        a = eval_expr(e["x"], env, hook)
+        b = eval_expr(e["y"], env, hook)
         if op == "==":
             return int(a == b)
         if op == "!=":
@@ -71,6 +76,18 @@ def eval_expr(e, env):
             return a ^ b
         if op == "*":
             return a * b
+        if op == "<<" and 0 <= b < 128:
+            return a << b
+        if op == ">>" and 0 <= b < 128:
+            return a >> b
+        if op == "/" and b != 0 and a >= 0 and b > 0:
+            return a // b
+        if op == "%" and b != 0 and a >= 0 and b > 0:
+            return a % b
+        if op == "&&":
+            return int(bool(a) and bool(b))
+        if op == "||":
+            return int(bool(a) or bool(b))
         raise Unknown()
     raise Unknown()
 
